@@ -377,6 +377,7 @@ class FnState:
         self.not_exec = False
         self.implicit = []          # ordered implicit parameter names used
         self.pending = []           # divisors met in the current statement: (code, error name)
+        self._probing = False
 
 
 # ---------------------------------------------------------------------------------------------
@@ -405,6 +406,7 @@ class Translator:
         self.implicit_types.setdefault('pinf', 'F')
         self.memo = {}
         self.in_progress = set()
+        self.depth = 0                            # nesting of function() calls (callees > 1)
         self.defs = []                            # (lean_name, text)
 
     # ------------------------------------------------------------------ helpers
@@ -821,6 +823,26 @@ class Translator:
             if name is None:
                 raise Unsupported(f'`{ast.unparse(s)}`')
             return self.err(ctx.fn, name.split('.')[-1], ctx)
+        if isinstance(s, (ast.Assign, ast.AugAssign, ast.If)) and self.partial_ok and self.depth <= 1 \
+                and not getattr(ctx.fn, '_probing', False):
+            # exec mode: if this statement needs a transcendental function the rest of the path is
+            # "not executable over Rat" (an explicit error value, never a guess)
+            probe = s.value if not isinstance(s, ast.If) else s.test
+            try:
+                ctx.fn._probing = True
+                mark = len(ctx.fn.pending)
+                if isinstance(s, ast.If):
+                    self.cond(probe, ctx)
+                else:
+                    self.expr(probe, ctx)
+                del ctx.fn.pending[mark:]
+            except NotExecutable as e:
+                ctx.fn.pending = []
+                ctx.fn.not_exec = True
+                ctx.fn._probing = False
+                return self.err(ctx.fn, f'not-executable-over-Rat:{e}')
+            finally:
+                ctx.fn._probing = False
         if isinstance(s, (ast.Assign, ast.AugAssign)):
             if isinstance(s, ast.Assign):
                 if len(s.targets) != 1:
@@ -884,7 +906,7 @@ class Translator:
             code, ty = self.expr(value, ctx)
         except NotExecutable as e:
             fn.pending = []
-            if not self.partial_ok:
+            if not self.partial_ok or self.depth > 1:
                 raise
             fn.not_exec = True
             return self.err(fn, f'not-executable-over-Rat:{e}')
@@ -899,6 +921,8 @@ class Translator:
     def call_function(self, mod, cls, name, kind, args, ctx):
         argv = [self.expr(a, ctx) for a in args]
         info = self.function(mod, cls, name, kind, [t for _, t in argv])
+        if info.get('not_exec'):
+            raise NotExecutable(name)
         if info['wrap'] or info['ret'] == 'S':
             raise Unsupported(f'call of the partial/state-updating function `{name}` inside an expression')
         for n in info['implicit']:
@@ -940,6 +964,7 @@ class Translator:
         if key in self.in_progress:
             raise Unsupported(f'recursive function `{name}`')
         self.in_progress.add(key)
+        self.depth += 1
         try:
             node = mod.method(cls, name, kind) if cls else mod.func(name)
             if not cls:
@@ -987,7 +1012,14 @@ class Translator:
                         return self.ret(None, c, i)
                     raise Unsupported(f'`{name}`: a path falls off the end without `return`')
                 return self.block(node.body, ctx, fall, '    ')
-            fn, body, ret, rty, wrap = self.stabilise(name, state_fn, run)
+            try:
+                fn, body, ret, rty, wrap = self.stabilise(name, state_fn, run)
+            except NotExecutable:
+                if self.depth <= 1:
+                    raise
+                info = {'lean': None, 'not_exec': True, 'wrap': None, 'ret': 'F', 'implicit': []}
+                self.memo[key] = info
+                return info
             binders = ''
             if cls:
                 binders += f' (s : {self.state["struct"]})'
@@ -1005,6 +1037,7 @@ class Translator:
             self.memo[key] = info
             return info
         finally:
+            self.depth -= 1
             self.in_progress.discard(key)
 
     @staticmethod
@@ -1029,7 +1062,11 @@ class Translator:
             def fall(c, i):
                 raise Unsupported(f'fragment `{lean}`: a path falls off the end')
             return self.block(stmts, ctx, fall, '    ')
-        fn, body, ret, rty, wrap = self.stabilise(lean, False, run)
+        self.depth += 1
+        try:
+            fn, body, ret, rty, wrap = self.stabilise(lean, False, run)
+        finally:
+            self.depth -= 1
         binders = ''.join(f' ({n} : {self.T(self.implicit_types[n])})' for n in fn.implicit)
         binders += ''.join(f' ({lname(p)} : {self.T(t)})' for p, t in params)
         text = (f'/-- fragment of {mod.path.name}' + (f':{lineno}' if lineno else '') +
@@ -1410,7 +1447,74 @@ def unit_c12(repo):
     return {'Sc3Verif/C12/GenTempo.lean': text}, index
 
 
-UNITS = {'C15': unit_c15, 'C12': unit_c12}
+def find_env_chain(cmod):
+    """Locate, inside Env._env_at, the segment loop, the `if time < end_time:` test, the
+    position assignment and the shape chain.  Any other shape of the function is unsupported."""
+    fn = cmod.method('Env', '_env_at')
+    loops = [n for n in fn.body if isinstance(n, ast.For)]
+    if len(loops) != 1:
+        raise Unsupported('Env._env_at: expected exactly one segment loop')
+    loop = loops[0]
+    ifs = [n for n in loop.body if isinstance(n, ast.If)]
+    if len(ifs) != 1 or ast.unparse(ifs[0].test) != 'time < end_time':
+        raise Unsupported('Env._env_at: expected `if time < end_time:` in the segment loop')
+    inner = ifs[0].body
+    want = ['shape = data[i + 2]', 'pos = (time - begin_time) / target_dur']
+    got = [ast.unparse(n) for n in inner[:2]]
+    if got != want or len(inner) != 3 or not isinstance(inner[2], ast.If):
+        raise Unsupported(f'Env._env_at: segment body changed: {got}')
+    pre = [ast.unparse(n) for n in loop.body if n is not ifs[0]]
+    if pre != ['target_level = float(data[i])', 'target_dur = data[i + 1]', 'end_time += target_dur']:
+        raise Unsupported(f'Env._env_at: loop prologue changed: {pre}')
+    if [ast.unparse(n) for n in ifs[0].orelse] != ['start_level = target_level', 'begin_time = end_time']:
+        raise Unsupported('Env._env_at: loop epilogue changed')
+    if ast.unparse(loop.iter) != 'range(4, num_stages * 4 + 1, 4)':
+        raise Unsupported('Env._env_at: loop range changed')
+    return fn, inner[1], inner[2]
+
+
+def unit_c19(repo):
+    bmod = PyModule(Path(repo) / 'sc3' / 'base' / 'builtins.py')
+    emod = PyModule(Path(repo) / 'sc3' / 'synth' / 'envelope.py', aliases={'bi': bmod})
+    table = literal_table(emod.class_const('Env', '_SHAPE_NAMES'), 'Env._SHAPE_NAMES')
+    fn, pos_stmt, chain = find_env_chain(emod)
+    files = {}
+    for mode in ('exec', 'real'):
+        tr = Translator(mode, partial_ok=(mode == 'exec'),
+                        assumptions={'data[i + 3]': ('extern', 'curveArg', 'F')})
+        tr.fragment('segValue', emod, 'Env', [chain],
+                    [('shape', 'I'), ('pos', 'F'), ('start_level', 'F'), ('target_level', 'F')],
+                    prebind={'shape_names': Static(table)}, lineno=chain.lineno)
+        tr.fragment('segPos', emod, 'Env', [ast.Return(value=pos_stmt.value)],
+                    [('time', 'F'), ('begin_time', 'F'), ('target_dur', 'F')], lineno=pos_stmt.lineno)
+        hdr = ('Source: sc3/synth/envelope.py, Env._env_at: the chain of shape formulas evaluated inside a\n'
+               'segment (`segValue shape pos start_level target_level`, `curveArg` = data[i + 3]) and the\n'
+               'position inside the segment (`segPos`); transcendental functions resolved through\n'
+               'sc3/base/builtins.py.')
+        if mode == 'exec':
+            hdr += ('\nExecutable variant over Rat: shapes that need a transcendental function return the error\n'
+                    'value "not-executable-over-Rat:…".  Also the literal table Env._SHAPE_NAMES.')
+            tr.defs.insert(0, ('shapeNames', table_def('shapeNames', table, 'envelope.py Env._SHAPE_NAMES')))
+            files['Sc3Verif/C19/GenEnv.lean'] = tr.render('Sc3Verif.C19.Gen', hdr, extra_top=PRELUDE_EXEC_MIN)
+        else:
+            files['Sc3Verif/C19/GenEnvReal.lean'] = tr.render(
+                'Sc3Verif.C19.GenR', hdr,
+                imports=['Mathlib.Analysis.SpecialFunctions.Pow.Real',
+                         'Mathlib.Analysis.SpecialFunctions.Trigonometric.Basic',
+                         'Mathlib.Analysis.SpecialFunctions.Sqrt'],
+                extra_top=PRELUDE_REAL)
+    return files, {'shape_names': table}
+
+
+PRELUDE_EXEC_MIN = '''
+def Py.truncQ (q : Rat) : Int := if 0 ≤ q then q.floor else q.ceil
+def Py.floorQ (q : Rat) : Int := q.floor
+def Py.ceilQ (q : Rat) : Int := q.ceil
+def Py.absI (a : Int) : Int := if a < 0 then -a else a
+def Py.absQ (a : Rat) : Rat := if a < 0 then -a else a
+'''
+
+UNITS = {'C15': unit_c15, 'C12': unit_c12, 'C19': unit_c19}
 
 
 def generate(prop, repo=None, write=True):
